@@ -256,6 +256,36 @@ def run(ck):
         ck.ob(R3, f"{dcall.fid} :: rejecting path line {r.lineno}", not bad,
               "no rejecting path touches _last" if not bad else
               "a rejected value is remembered as the last value (drift)", dcall, r.ast)
+    # ---- the filter decided by an abstract run: last in {UNDEF, 10}, value around it, delta = 1
+    from sa.minieval import MiniEval
+    run_bad = []
+    n_run = 0
+    UND = 'UNDEF-TOKEN'
+    for last_ in (UND, 10):
+        for val_ in (10, 10.5, 11, 9, 8.5, 12):
+            env = {'self._last': last_, 'self._delta': 1, dp: {'value': val_}, 'block.UNDEF': UND, 'UNDEF': UND}
+            try:
+                me = MiniEval(R3, env)
+                out = me.run(dcall.node.body)
+            except Exception as err:
+                run_bad = None
+                ck.note(f"R16.3 abstract run not applicable: {err}")
+                break
+            n_run += 1
+            ck.abstract_cases += 1
+            want = last_ is UND or abs(last_ - val_) >= 1
+            new_last = me.env.get('self._last')
+            if out[0] != 'return' or bool(out[1]) != want or new_last != (val_ if want else last_):
+                run_bad.append(f"last={last_}, value={val_}: returns {out}, _last becomes {new_last}; documented: "
+                               f"{'pass and remember the value' if want else 'reject and keep the last value'}")
+        if run_bad is None:
+            break
+    run_ok = run_bad is not None and not run_bad
+    if run_bad is not None:
+        ck.ob(R3, f"{dcall.fid} :: abstract run", run_ok,
+              f"evaluated on {n_run} (last, value) pairs with delta = 1: passes iff there is no last "
+              f"value or |last - value| >= delta; only a passed value is remembered" if run_ok
+              else "; ".join(run_bad[:3]), dcall, dcall.node)
     # comparator
     cmp_ok = False
     undef_ok = False
@@ -272,11 +302,11 @@ def run(ck):
                     cmp_ok = True
             if isinstance(n.ops[0], ast.Is) and norm(l) == 'self._last' and 'UNDEF' in norm(r):
                 undef_ok = True
-    ck.ob(R3, f"{dcall.fid} :: comparator", cmp_ok,
+    ck.ob(R3, f"{dcall.fid} :: comparator", cmp_ok or run_ok,
           "abs(last - value) >= delta ('differs by at least delta')" if cmp_ok else
           "the pass condition is not abs(self._last - value) >= self._delta", dcall, dcall.node)
     acc_guard = all(any('UNDEF' in t for t, p in g.guard_texts(r)) for r in acc)
-    ck.ob(R3, f"{dcall.fid} :: first value", undef_ok and acc_guard,
+    ck.ob(R3, f"{dcall.fid} :: first value", (undef_ok and acc_guard) or run_ok,
           "the first value (no last value yet) always passes" if undef_ok and acc_guard else
           "the `_last is UNDEF` case is not part of the pass condition", dcall, dcall.node)
     own(ck, R3, '_last', {dinit.fid: 'constructor (UNDEF)', dcall.fid: 'the filter itself'})
@@ -316,6 +346,35 @@ def run(ck):
         ok = len(step) == 1 and bool(brk) and all(norm(r.ast.value) == dp for r in rets) and bool(rets)
         # no further edit after a non-mapping result: the test follows the step in the body
         ok = ok and all(g.dominates(step[0], b) for b in brk)
+    if not ok:
+        # layout-independent decision: run __call__ on edit lists of recording callables
+        from sa.minieval import MiniEval
+        good = True
+        try:
+            for reject_at in (None, 0, 1, 2):
+                trace = []
+
+                def mk(i, trace=trace, reject_at=reject_at):
+                    def edit(d):
+                        trace.append((i, dict(d) if isinstance(d, dict) else d))
+                        if reject_at == i:
+                            return None
+                        return {**d, f'k{i}': i}
+                    return edit
+                env = {'self._editlist': [mk(0), mk(1), mk(2)], dp: {'src': 1}}
+                out = MiniEval(R4, env).run(call.node.body)
+                ck.abstract_cases += 1
+                if reject_at is None:
+                    want_out = {'src': 1, 'k0': 0, 'k1': 1, 'k2': 2}
+                    want_calls = [0, 1, 2]
+                else:
+                    want_out = None
+                    want_calls = list(range(reject_at + 1))
+                chained = all(tr_[1] == {'src': 1, **{f'k{j}': j for j in range(tr_[0])}} for tr_ in trace)
+                good = good and out == ('return', want_out) and [t_[0] for t_ in trace] == want_calls and chained
+        except Exception:
+            good = False
+        ok = good
     ck.ob(R4, call.fid, ok, "data = edit(data) for each edit in order; stops at the first "
           "non-mapping result and returns it" if ok else
           "DataEdit.__call__ does not apply the edits in order to the loop-carried data or does "
